@@ -928,4 +928,7 @@ def run(ctx):
     ctx.guard(C19_md5.r17, ctx, prog)
     from tbxlint import progress
     ctx.guard(progress.run_files, ctx, prog, 'C19.R18', ['util/base64.cpp', 'util/string.cpp', 'util/scalable_integer.cpp', 'util/serializer.cpp', 'http/url.cpp', 'util/crc.cpp', 'util/checksum.cpp', 'crypto/md5.cpp', 'crypto/aes.cpp'], 'codecs', floor=1)
+    from rules import C19_values
+    ctx.guard(C19_values.r19, ctx, prog)
+    ctx.guard(C19_values.r20, ctx, prog)
     return prog
